@@ -200,6 +200,17 @@ func freshVal(T types.Type, prefix string) Val {
 	return Val{T, L}
 }
 
+// freshValAny: like freshVal, but references may denote any object, including ones allocated during the call
+// (names without the "ref!" prefix, which marks references known to predate all allocations).
+func freshValAny(T types.Type, prefix string) Val {
+	ss := leafSorts(T)
+	L := make([]*Term, len(ss))
+	for i, s := range ss {
+		L[i] = FreshVar("any!"+prefix, s)
+	}
+	return Val{T, L}
+}
+
 type leafKind int
 
 const (
